@@ -1,5 +1,6 @@
 import Tengo.Sexp
 import Tengo.Model.VM
+import Tengo.Model.VerifyProg
 import Tengo.Drivers.C01
 /-!
 `(vm <fuel> <keep> <maxAllocs> <nglobals> ((idx <value>)…) (<const>…) <fn>)` with
@@ -21,10 +22,8 @@ def readFn : Sexp → Option Fn
     | _, _, _, _ => none
   | _ => none
 
-def readConsts (cs : List Sexp) : M (Option (List Const × Array FnObj)) := do
+def readConsts (cs : List Sexp) : M (Option (List Const)) := do
   let mut out : List Const := []
-  let mut fobjs : Array FnObj := #[]
-  let mut k := 0
   for c in cs do
     match c with
     | .list [.atom "v", v] =>
@@ -33,12 +32,9 @@ def readConsts (cs : List Sexp) : M (Option (List Const × Array FnObj)) := do
       | none => return none
     | other =>
       match readFn other with
-      | some f =>
-          out := .fn f fobjs.size :: out
-          fobjs := fobjs.push (k, [])
+      | some f => out := .fn f 0 :: out       -- `ref` is assigned by `initFobjs`
       | none => return none
-    k := k + 1
-  return some (out.reverse, fobjs)
+  return some out.reverse
 
 def readGlobals (n : Nat) (gs : List Sexp) : M (Option (Array Value)) := do
   let mut arr : Array Value := Array.replicate n .undef
@@ -59,13 +55,13 @@ def handleVM : List Sexp → String
   | [fuel, keep, maxAllocs, ng, .list gs, .list cs, mainFn] =>
     match fuel.asNat?, keep.asNat?, maxAllocs.asInt?, ng.asNat?, readFn mainFn with
     | some fuel, some keep, some maxAllocs, some ng, some main =>
-      let setup : M (Option (Array Value × List Const × Array FnObj)) := do
+      let setup : M (Option (Array Value × List Const)) := do
         match ← readGlobals ng gs, ← readConsts cs with
-        | some g, some (c, fo) => pure (some (g, c, fo))
+        | some g, some c => pure (some (g, c))
         | _, _ => pure none
       match setup.run {} with
-      | .ok (some (globals, consts, fobjs), heap) =>
-        let code : Code := { main := main, consts := consts.toArray }
+      | .ok (some (globals, consts), heap) =>
+        let (code, fobjs) := initFobjs { main := main, consts := consts.toArray }
         let (out, log) := run code keep fuel (maxAllocs + 1) ⟨initCore globals fobjs, {}, heap⟩ {}
         let tail := s!"{log.steps} {log.counted} {log.sum}"
         match out with
@@ -90,6 +86,33 @@ def handleVM : List Sexp → String
     | _, _, _, _, _ => "bad-op args"
   | _ => "bad-op"
 
-def handlers : List (String × (List Sexp → String)) := [("vm", handleVM)]
+def showVErr : Tengo.Model.Verifier.VErr → String
+  | .undecodable => "undecodable"
+  | .inconsistent p a b => s!"inconsistent-{p}-{a}-{b}"
+  | .underflow p h => s!"underflow-{p}-{h}"
+  | .badTarget p t => s!"badTarget-{p}-{t}"
+  | .tooHigh p h => s!"tooHigh-{p}-{h}"
+  | .badOperand p w => s!"badOperand-{p}-{w.replace " " "-"}"
+  | .emptyFunction => "emptyFunction"
+  | .noFixpoint => "noFixpoint"
+
+/-- `(verifyprog <nglobals> (<const>…) <fn>)` → `ok <#functions tabulated> <initOk>` | `err <what>`. -/
+def handleVerifyProg : List Sexp → String
+  | [ng, .list cs, mainFn] =>
+    match ng.asNat?, readFn mainFn with
+    | some ng, some main =>
+      match (readConsts cs).run {} with
+      | .ok (some consts, _) =>
+        let (code, fobjs) := initFobjs { main := main, consts := consts.toArray }
+        match verifyProgram code ng with
+        | .ok t => s!"ok {t.fns.length} {if initOk code t fobjs then 1 else 0}"
+        | .error (.fn idx e) => s!"err fn {idx} {showVErr e}"
+        | .error (.inconsistentClosure _) => "err inconsistent-closure"
+        | .error .check => "err check"
+      | _ => "bad-op consts"
+    | _, _ => "bad-op args"
+  | _ => "bad-op"
+
+def handlers : List (String × (List Sexp → String)) := [("vm", handleVM), ("verifyprog", handleVerifyProg)]
 
 end Tengo.Drivers.VM
